@@ -453,6 +453,19 @@ func fieldKeyRule(c *core.Ctx) {
 				}
 			}
 		}
+		if emptyPol == 0 {
+			// the emptiness test written on the length: len(tag) > 0, len(tag) == 0, ...
+			for _, s := range p.Events(ir.KBranch) {
+				s.Atom.Walk(func(x *ir.Term) {
+					if x.Op == "len" && len(x.Args) == 1 && isTag(x.Args[0]) && tagT == nil {
+						tagT = x.Args[0]
+					}
+				})
+			}
+			if tagT != nil {
+				emptyPol = polarity(p, &ir.Term{Op: "bin", Aux: "==", Args: sorted2(ir.Const("0"), &ir.Term{Op: "len", Args: []*ir.Term{tagT}})})
+			}
+		}
 		switch {
 		case emptyPol < 0 && ir.Same(r, tagT):
 			nTag++
@@ -963,6 +976,18 @@ func fmapRule(c *core.Ctx) {
 		return
 	}
 	idx := l.Index(an)
+	// a position kept in a cursor object is related to the loop counter by a lock-step invariant
+	norm := lockstepRewrite(an, l)
+	// calls of the user's function (helpers of the package that were followed into leave no call events)
+	userCalls := func(p *ir.Path) []*ir.Step {
+		var out []*ir.Step
+		for _, s := range calls(p) {
+			if s.Static == nil || s.Static.Pkg != fn.Pkg {
+				out = append(out, s)
+			}
+		}
+		return out
+	}
 	ok, n := true, 0
 	if !l.Rotated() {
 		if q := earlyExit(an, h); q != nil {
@@ -981,10 +1006,10 @@ func fmapRule(c *core.Ctx) {
 				st = s
 			}
 		}
-		good := st != nil && ir.Same(st.A[0].Args[1], idx) && len(calls(p)) == 1
+		good := st != nil && ir.Same(norm(st.A[0].Args[1]), idx) && len(userCalls(p)) == 1
 		if good {
 			_, callee, args, isC := callParts(st.A[1])
-			good = isC && paramOf(callee, fn, 1) && len(args) == 1 && args[0].Op == "load" && args[0].Args[0].Op == "iaddr" && ir.Same(args[0].Args[0].Args[0], l.RangeOver) && ir.Same(args[0].Args[0].Args[1], idx)
+			good = isC && paramOf(callee, fn, 1) && len(args) == 1 && args[0].Op == "load" && args[0].Args[0].Op == "iaddr" && ir.Same(args[0].Args[0].Args[0], l.RangeOver) && ir.Same(norm(args[0].Args[0].Args[1]), idx)
 		}
 		if !good {
 			ok = false
